@@ -474,6 +474,11 @@ class History:
         if self.gated[s] >= 2:
             return ("noop", s)
         k = rng.choices(kinds, [base[x] for x in kinds])[0]
+        # mostly-valid input: a command that needs a selected mailbox, issued by a session that has none, is
+        # answered NO and exercises nothing; keep one in seven of those, turn the rest into a SELECT
+        if self.selected[s] is None and base.get("select") and rng.random() < 0.85 and \
+                k in ("store", "fetch", "search", "expunge", "copy", "move", "close", "unselect", "check", "idle"):
+            k = "select"
         n = self.size_hint.get(self.selected[s] or "inbox", 0)
         if k == "select":
             m = rng.choice(self.boxes + ["INBOX"] + (["nosuch"] if rng.random() < 0.1 else []))
